@@ -81,6 +81,18 @@ int f1(int n, struct pt *s)
     if (x < 10) goto lbl;
     return (x + (int) y + (int) z + ch + bs);
 }
+/**
+ * Doc comments whose last line holds a tag and the closer.
+ * @param n, m the counts
+ * @return the sum */
+int dc1(int n, int m) { return n + m; }
+/** @brief one line @param x */
+int dc2(int x) { return x; }
+/**
+ * @param s   the point*/
+int dc3(struct pt *s) { return s->x; }
+/**
+ * @return */
 void v1(void) { return; }
 int g1f(int n) { return n; };
 """,
@@ -95,6 +107,15 @@ class K : public B { public: K() : m(0), n(1) {} explicit K(int v) : m(v), n(v) 
 enum class Col : int { R = 1, G, };
 using fp = int (*)(int);
 int glob = ::a;
+/**
+ * @tparam T the type
+ * @param x, y values
+ * @return the larger one*/
+template<typename T> T dmax(const T &x, const T &y) { return x > y ? x : y; }
+/**
+ * @throws nothing */
+int dc2(int x) { return dmax<int>(x, 1); }
+/// @param argc count
 int run(int argc)
 {
     vec<vec<int>> vv{}; vec<outer::inner::pair<int, long>> vp{};
@@ -130,6 +151,9 @@ __attribute__((objc_root_class)) @interface Root
 @implementation A
 - (int)val:(int)a with:(int)b { if (a) { return a + b; } else return [self val:b with:a - 1] + m; }
 @end
+/**
+ * @param o the object
+ * @param n count */
 int use(A *o, int n) { int r = [o val:n with:2]; for (;;) { if (r) break; } return r + o.z; }
 """,
     "JAVA": """import java.util.List; import java.util.ArrayList;
@@ -139,6 +163,12 @@ public class A<T extends Comparable<T>> {
     public int f(int a, int b) { int x = a;; if (a > 0) { x++; } else x--; for (;;) { if (x > 3) break; x++; }
         while (true) { x--; if (x < 0) break; } F g = (int y) -> y * 2; switch (x) { case 1: { x = 2; } break; default: break; }
         x = a > b ? -a : +b; x = x << 2 >>> 1 >> 1; x >>>= 1; boolean q = a == b && !(x > 1 || b < 2); return q ? g.ap(x) : x + m; }
+    /**
+     * @param a, b the numbers
+     * @return the sum */
+    public int dc(int a, int b) { return a + b; }
+    /**
+     * @exception RuntimeException never*/
     @Override public String toString() { return "a  b" + m; }
 }
 """,
